@@ -420,7 +420,18 @@ func CheckTable(p *Prog, r *Report, rule, fnKey string, pe *PathEnum, spec func(
 	for _, row := range pe.Rows {
 		key := fnKey + " path " + row.String()
 		if strings.HasPrefix(row.Outcome, "?") {
-			r.Unk(rule, fnKey+" "+row.Outcome, p.Pos(row.Pos), "a branch condition outside the rule's atom vocabulary; extend the vocabulary after reading the code: path so far "+row.String())
+			what := ""
+			for i, u := range pe.Unknown {
+				if i >= 3 {
+					break
+				}
+				pos := u.Pos()
+				if in, ok := u.(ssa.Instruction); ok && !pos.IsValid() {
+					pos = instrPos(in)
+				}
+				what += "; condition `" + u.String() + "` at " + p.Pos(pos)
+			}
+			r.Unk(rule, fnKey+" "+row.Outcome, p.Pos(row.Pos), "a branch condition outside the rule's atom vocabulary; extend the vocabulary after reading the code: path so far "+row.String()+what)
 			continue
 		}
 		want, missing := SpecEval(row, spec, pe.Excl...)
